@@ -325,7 +325,7 @@ class TypeMap:
             return dict(ctype='size_t', kind='scalar', ref=ref, ptr=ptr, const=const)
         if t in ('bool',):
             return dict(ctype='_Bool', kind='scalar', ref=ref, ptr=ptr, const=const)
-        if t in ('int', 'long', 'void', 'char', 'unsigned int', 'long double'):
+        if t in ('int', 'long', 'void', 'char', 'unsigned int', 'long double', 'unsigned long long'):
             return dict(ctype=t, kind='scalar', ref=ref, ptr=ptr, const=const)
         if t in ('callback_mode', 'multi_channel_map'):
             return dict(ctype='int', kind='scalar', ref=ref, ptr=ptr, const=const)
@@ -1189,6 +1189,15 @@ class Emitter:
         if op == 'operator=' and bti['kind'] == 'vec':
             self.fire('G7')
             return 'vp_%s_copy(&(%s), &(%s))' % (bti['ctype'], self.emit(args[0]), self.emit(strip_all(args[1])))
+        if op == 'operator=' and bti['kind'] == 'class':
+            # x = f(...): the value is materialised in a function-level temporary, then assigned (move/copy assignment of the class:
+            # the library's defaulted operator= is memberwise)
+            self.fire('G11')
+            rhs = strip_all(args[1])
+            if rhs['kind'] in ('CallExpr', 'CXXMemberCallExpr', 'CXXOperatorCallExpr') and rhs.get('valueCategory') == 'prvalue':
+                t = self.new_temp(bti)
+                return '(%s, %s = %s)' % (self.call(rhs, dst='&' + t), self.emit(args[0]), t)
+            return '(%s = %s)' % (self.emit(args[0]), self.emit(rhs))
         raise ExtractError('operator call %s on %s' % (op, qtype(args[0])))
 
     # -- statements ----------------------------------------------------------------------------------------
